@@ -36,7 +36,8 @@ META = {
         ' Round 8: every return of plss_preprocess went through reduce_whitespace.'
         ' Round 9: pass_back_halves makes progress (no oscillating fix point).'
         ' Round 10: every description staged in _parse_meaningful is a cleanup_desc() result (keeps trailing separator runs, on which the list patterns are exponential, away from the Tract parser).'
-        ' Round 11: every stage of the whitespace / Twp/Rge normalisation reads the result of the stage before it (no dead store).'),
+        ' Round 11: every stage of the whitespace / Twp/Rge normalisation reads the result of the stage before it (no dead store).'
+        ' Round 12: an ambiguity whose loop component and signature equal those of a recorded finding is attributed to it (new patterns that embed the shared sub-pattern).'),
     'assumptions': [
         "sre is a backtracking matcher whose work is bounded by the number of "
         "distinct paths of the position automaton on the input",
@@ -57,6 +58,19 @@ def check(ctx):
     usage = common.regex_usage(ctx)
     ctx.floor('regex patterns folded', sum(1 for r in inv if r['rv'] is not None), 35)
     sizes = {}
+    # loops of the patterns that have a recorded EDA finding (shared sub-patterns are attributed to them)
+    from ..core import load_known
+    known_names = {k['key'].split('|')[1] for k in load_known().get('known', []) if k.get('property') == 'C16' and '|EDA|' in k['key']}
+    shared_loops = {}
+    for r in inv:
+        if r['rv'] is not None and r['name'] in known_names:
+            rv0 = r['rv']
+            res0 = ctx.cache(('amb', rv0.pattern, rv0.flags, bound), lambda rv0=rv0: rx.analyse_ambiguity(rv0.pattern, rv0.flags, bound))
+            for e0 in res0['eda']:
+                if e0['verdict'] == 'exploitable':
+                    for part in e0['loop'].split(' & '):
+                        if len(part.strip()) > 12:       # a real sub-pattern, not a bare `\s*`
+                            shared_loops.setdefault((part.strip(), e0['signature']), r['name'])
     n_used = 0
     for r in inv:
         if r['rv'] is None:
@@ -81,6 +95,14 @@ def check(ctx):
             continue
         for e in res['eda']:
             if e['verdict'] == 'exploitable':
+                # the same ambiguous sub-pattern (identical loop, identical divergence signature) in a pattern that
+                # has a recorded finding: a new pattern that merely embeds that sub-pattern adds no new defect
+                shared = next((shared_loops[(part.strip(), e['signature'])] for part in e['loop'].split(' & ')
+                               if (part.strip(), e['signature']) in shared_loops), None)
+                if shared and shared != name and name not in known_names:
+                    ctx.ok('RX-AMB', name, f"embeds the ambiguous sub-pattern recorded for {shared} (same loop, same divergence "
+                                           f"signature {e['signature']}); see that finding")
+                    continue
                 bad = True
                 ctx.violation(
                     'RX-AMB', name,
